@@ -474,7 +474,9 @@ pub mod audit {
         };
         let mut tree = builder.build_tree(meta_table);
         let mut relations = Vec::new();
+        let empty = tree.is_empty().unwrap_or(false);
         match tree.iter_forward() {
+            _ if empty => {}
             Ok(iter) => {
                 for pos in iter {
                     let Ok(pos) = pos else { a.errors.push("meta table: iterator error".into()); break };
